@@ -174,7 +174,60 @@ fn handle(line: &str) -> String {
                     same &= r == base;
                 }
             }
-            format!("same={}", same)
+            // size order on one thread: a large symbol (and its text rendering) first, then this input; compared with
+            // the same build and rendering on a fresh thread (caches keyed by nothing, reused buffers)
+            let render = |inp: Vec<u8>, big_first: bool| -> String {
+                if big_first {
+                    if let Ok(q) = QRBuilder::new(vec![0x5Au8; 400]).ecl(ECL::L).build() {
+                        let _ = q.to_str();
+                    }
+                    if let Ok(q) = QRBuilder::new("0123456789012345678901234567890123456789").ecl(ECL::H).build() {
+                        let _ = q.to_str();
+                    }
+                }
+                match QRBuilder::new(inp).ecl(ECL::M).build() {
+                    Ok(q) => format!("{}|{}", qr_fields(&q), hex(q.to_str().as_bytes())),
+                    Err(_) => "ERR".to_string(),
+                }
+            };
+            let i1 = input.clone();
+            let i2 = input.clone();
+            let fresh = std::thread::spawn(move || render(i1, false)).join().unwrap();
+            let after_big = std::thread::spawn(move || render(i2, true)).join().unwrap();
+            let mut why = String::new();
+            if fresh != after_big {
+                same = false;
+                why = " (differs after a larger symbol was built and rendered on the same thread)".to_string();
+            }
+            format!("same={}{}", same, why)
+        }
+        "history" => {
+            // history <hex input> <op,op,..>: ops b (build), m<i> e<i> v<i> k<i> (mode/ecl/version/mask setters) applied to
+            // ONE builder; the last build is compared with a fresh builder configured with the final option state
+            use crate::qr::QRBuilder;
+            let input = unhex(a[1]);
+            let mut b = QRBuilder::new(input.clone());
+            let (mut fm, mut fe, mut fv, mut fk): (Option<Mode>, Option<ECL>, Option<Version>, Option<Mask>) = (None, None, None, None);
+            let mut last = String::from("none");
+            for op in a[2].split(',') {
+                let (c, rest) = op.split_at(1);
+                match c {
+                    "b" => last = b.build().map(|q| qr_fields(&q)).unwrap_or("ERR".into()),
+                    "m" => { fm = Some(mode(rest)); b.mode(mode(rest)); }
+                    "e" => { fe = Some(ecl(rest)); b.ecl(ecl(rest)); }
+                    "v" => { fv = Some(ver(rest)); b.version(ver(rest)); }
+                    "k" => { fk = Some(mask(rest)); b.mask(mask(rest)); }
+                    _ => return "ERR bad op".to_string(),
+                }
+            }
+            let mut f = QRBuilder::new(input);
+            if let Some(x) = fm { f.mode(x); }
+            if let Some(x) = fe { f.ecl(x); }
+            if let Some(x) = fv { f.version(x); }
+            if let Some(x) = fk { f.mask(x); }
+            let fresh = f.build().map(|q| qr_fields(&q)).unwrap_or("ERR".into());
+            let pick = |s: &str| s.split(" data=").next().unwrap_or("").to_string();
+            format!("same={} reused=[{}] fresh=[{}]", last == fresh, pick(&last), pick(&fresh))
         }
         "to_str" => {
             let qr = qr_from(ver(a[1]), &unhex(a[2]));
